@@ -1,4 +1,6 @@
 """Helpers shared by the per-property check modules."""
+import contextlib
+
 from vmon import snap, core
 from vmon.core import REC, SKIP  # noqa
 from models import tiers as M
@@ -250,3 +252,19 @@ def receiver_changed(ctx, before, what="receiver"):
     if after is None or after == before:
         return None
     return "the call changed its %s: %r -> %r" % (what, before, after)
+
+
+@contextlib.contextmanager
+def piece(name):
+    """One self-contained piece of a workload.  A failure of a set-up step inside it (the library refusing to build an operand the
+    driver needs, an operand that an earlier, unjudged call left unusable) gives up this piece only: the monitors go on observing
+    the rest of the workload.  The shard is reported as driver_error all the same - unless a monitor found a violation, the run is
+    INCONCLUSIVE, never held."""
+    try:
+        yield
+    except (core.StepBudgetExceeded, KeyboardInterrupt, SystemExit, MemoryError):
+        raise
+    except Exception as e:
+        import traceback
+
+        REC.aborted.append("%s: %s" % (name, "".join(traceback.format_exception(e))[-1500:]))
